@@ -128,6 +128,14 @@ impl EntryTrait for IndexEntry {
 }
 
 impl IndexEntry {
+    /// True if the stored mtime can be represented as a [Timestamp], which [EntryTrait::mtime]
+    /// relies on. Entries written by Conserve always satisfy this; a damaged index might not.
+    pub(crate) fn mtime_is_representable(&self) -> bool {
+        i32::try_from(self.mtime_nanos)
+            .ok()
+            .is_some_and(|nanos| Timestamp::new(self.mtime, nanos).is_ok())
+    }
+
     /// Copy the metadata, but not the body content, from another entry.
     ///
     /// The result has no blocks.
